@@ -739,11 +739,15 @@ func (r *vcfsRun) posReads() {
 				list = append(list, o)
 			}
 		}
-		sort.Ints(list)
 		if len(list) > 24 {
+			sort.Ints(list)
 			r.rng.Shuffle(len(list), func(i, j int) { list[i], list[j] = list[j], list[i] })
 			list = list[:24]
 		}
+		// DESCENDING: a Read leaves the handle beyond its start, so every Seek really moves the
+		// offset and filehandle.Seek invalidates the pointer (a Seek to the current offset keeps
+		// the old, still valid pointer and would take the sequential path again).
+		sort.Sort(sort.Reverse(sort.IntSlice(list)))
 		for _, o := range list {
 			var pos int64
 			r.guard("posseek", func() { pos, err = f.Seek(int64(o), io.SeekStart) })
